@@ -14,7 +14,7 @@ from eglib.model import ANY, ERROR, NONNEIGHBOR, ref_neighbors, ref_reach
 
 
 def cases(max_v=8, max_e=14, classes=6, settings=True):
-    def mk(g, uni, s, d, u, via, res, cache=False, pad=0, swap=None, take=0):
+    def mk(g, uni, s, d, u, via, res, cache=False, pad=0, swap=None, take=0, none_ends=()):
         nv = g["nv"]
         if uni is not None:
             uni = list(dict.fromkeys(x % nv for x in uni)) or [s % nv]
@@ -22,7 +22,10 @@ def cases(max_v=8, max_e=14, classes=6, settings=True):
         else:
             start = s % nv
         return {"g": g, "uni": uni, "start": start, "d": d, "u": u, "via": via, "res": res, "cache": cache,
-                "pad": pad if uni is not None else 0, "swap": list(swap) if (swap and uni is not None) else None, "take": take}
+                "pad": pad if uni is not None else 0, "swap": list(swap) if (swap and uni is not None) else None, "take": take,
+                # links with an UNASSIGNED end (None): only together with a universe (None is never a member, so the
+                # traversal has something that tells it not to walk into it)
+                "none_ends": [list(x) for x in none_ends] if uni is not None else []}
 
     return st.builds(
         mk,
@@ -41,6 +44,7 @@ def cases(max_v=8, max_e=14, classes=6, settings=True):
         st.sampled_from([0] * 50 + [40] * 6 + [1000]),
         st.one_of(st.none(), st.tuples(st.integers(0, 7), st.integers(0, 7))),
         st.integers(0, 4),
+        st.one_of(st.just(()), st.just(()), st.lists(st.tuples(st.integers(0, 13), st.integers(0, 1)), min_size=1, max_size=2)),
     )
 
 
@@ -50,6 +54,12 @@ class Setup:
 
         self.case = case
         self.vs, self.ls = graphs.build(case["g"])
+        for k, end in case.get("none_ends") or ():
+            if self.ls:
+                if end:
+                    self.ls[k % len(self.ls)].v2 = None
+                else:
+                    self.ls[k % len(self.ls)].v1 = None
         self.G = graphs.abstract(self.vs, self.ls)
         self.vi = {id(v): i for i, v in enumerate(self.vs)}
         self.li = {id(l): i for i, l in enumerate(self.ls)}
@@ -108,7 +118,7 @@ class Setup:
             return None
         if accept_all:
             return C.MethodFilter(lambda e, v: True).accept
-        return C.MethodFilter(lambda e, v: f(li[id(e)], vi[id(v)])).accept
+        return C.MethodFilter(lambda e, v: f(li[id(e)], vi.get(id(v), -1))).accept
 
     def fresh_ff(self, accept_all=False):
         """A new short-lived ff_via callable at every call (same truth table unless accept_all)."""
@@ -123,7 +133,7 @@ class Setup:
 
         if accept_all:
             return make(lambda e, v: True)
-        return make(lambda e, v: f(li[id(e)], vi[id(v)]))
+        return make(lambda e, v: f(li[id(e)], vi.get(id(v), -1)))
 
     def kw(self, res=False):
         k = dict(direction_sensitive=self.d, unknown_handling=self.u, ff_via=self.ff)
